@@ -35,7 +35,7 @@ def run(prog, rep, tier):
     R71 = rep.rule("R7.1", "date converter cannot panic on any matched line (from C04 R4.2)")
     R72 = rep.rule("R7.2", "no unbounded CStr::from_ptr on a fixed-size record field (worker-reachable)")
     R73 = rep.rule("R7.3", "unsafe record reads are dominated by the length check")
-    R74 = rep.rule("R7.4", "input errors are reported through the worker protocol (from C06 R6.1)")
+    R74 = rep.rule("R7.4", "input errors are reported through the worker protocol; dismissed sources are not awaited (from C06 R6.1, R6.8)")
     R76 = rep.rule("R7.6", "decoder read loops make progress or stop (from C05 R5.1b/c)")
 
     # ------------------------------------------------------------ R7.1 / R7.4 / R7.6 : lifted verdicts
@@ -50,9 +50,9 @@ def run(prog, rep, tier):
     rep.rules[R71]["nontrivial"] += max(0, n - 3)
     s6 = _sub(prog, rep, c06, "C06")
     for (rid, key, what, detail) in s6.violations:
-        if rid == "R6.1":
+        if rid in ("R6.1", "R6.8"):
             rep.violation(R74, key.split("|", 1)[1], what)
-    for s in s6.rules.get("R6.1", {}).get("samples", []):
+    for s in s6.rules.get("R6.1", {}).get("samples", []) + s6.rules.get("R6.8", {}).get("samples", []):
         rep.examined(R74, "sample|" + str(s)[:60], sample=s)
     s5 = _sub(prog, rep, c05, "C05")
     for (rid, key, what, detail) in s5.violations:
@@ -174,6 +174,20 @@ def run(prog, rep, tier):
                 obs.append("%s:%d" % (p.split("::")[-1], c.line))
     if obs:
         rep.info("environment failures unwrapped (unreadable-file scenario, outside the property's arbitrary-content quantifier): %s" % sorted(set(obs))[:6])
+
+    # ------------------------------------------------------------ R7.8
+    import signedidx
+    R78 = rep.rule("R7.8", "a signed record field converted to usize (table index) is guarded non-negative")
+    nsi = 0
+    for (b_, bb_, line_, ty_, root_, guards_) in signedidx.sites(prog, lambda p: p.startswith("s4lib::") and "_tests" not in p):
+        nsi += 1
+        inst = "%s|%s" % (b_.path, "|".join(str(x) for x in root_ if not isinstance(x, int)) if root_ else "?")
+        rep.examined(R78, inst, sample={"site": b_.path, "line": line_, "type": ty_, "value": str(root_), "guards": guards_})
+        if not guards_:
+            rep.violation(R78, inst, "%s (line %s): a %s value is converted with `as usize` and used as an index without a test that it is not negative; a corrupted record with a negative value "
+                          "turns into a huge index, the bounds check panics and panic=abort ends the whole run" % (b_.path, line_, ty_))
+    if nsi < 5:
+        raise CheckerError("R7.8: only %d signed-to-usize conversions found (5 counted on the pinned tree)" % nsi)
 
     # ------------------------------------------------------------ R7.7 (shared instant-preservation lint)
     import instant
